@@ -1397,6 +1397,12 @@ def corpus(which, rng):
             k1 = _kernel(nm, 'k1', [xdecl('ztmp', 'real', 'local', [(None, K)]), xdecl('zkeep', 'real', 'local', [(None, K)]),
                                     xdecl('zbig', 'real', 'local', [(None, K), (None, L)])], body)
             progs.append(('basic', [k1, _inner_kernel(nm)]))
+            # (c) loop-invariant scalar updated (non-idempotently) between two horizontal loops of one vector section
+            body = [assign(V('zc'), R(1)), callst('n2', st, en, K, el('pq', rng_(), N(2)), el('pt', rng_(), N(2))),
+                    do(nm['jl'], st, en, [assign(el('pq', jl, N(1)), add(el('pq', jl, N(1)), V('zc')))]),
+                    assign(V('zc'), op('prod', V('zc'), R(1, 2))),
+                    do(nm['jl'], st, en, [assign(el('pt', jl, N(1)), add(el('pt', jl, N(1)), V('zc')))])]
+            progs.append(('accum', [_kernel(nm, 'k1', [decl('zc', 'real')], body), _level_kernel(nm)]))
         else:
             # (a) nested kernel called with klev and klev-1 levels
             body = [callst('n1', st, en, K, L, V('pq'), V('pt')), callst('n1', st, en, K, add(L, N(-1)), V('pt'), V('pq'))]
